@@ -303,6 +303,16 @@ class Typer:
             if kw.arg is not None:
                 self.ev(kw.value, env, rule, ai)
         if name.startswith("raise_"):
+            # C11: the helpers need a token or a positioned node (known_location / known_range / starting_from)
+            if name in ("raise_syntax_error_known_location", "raise_syntax_error_known_range", "raise_syntax_error_starting_from"):
+                for a, at in zip(e.args[1:], args[1:]):
+                    if at in (ANY, BOT):
+                        self.count(False)
+                        continue
+                    self.count(True)
+                    ok = at == TOK or is_node(at)
+                    if not ok:
+                        self.problem(rule, ai, "errarg", f"self.{name}(..., `{ast.unparse(a)[:50]}`): argument of abstract type {fmt(at)} where a token or a positioned node is required")
             return NONE_T
         if spec is None:
             return ANY
